@@ -19,6 +19,7 @@ EXPLANATION = (
     "Not decided: overflow/rounding behaviour of the Rust operators."
     ' (R4, strengthened) the shape guard of every same-form arm is DECIDED over the finite table of operand shapes {1,2,3}^2 x {1,2,3}^2 admitted by the storage forms: it must fire for every unequal pair and for no equal pair; (R7) the per-variant arms of Value::kind/shape/is_matrix/is_scalar keep their frozen sibling partition (deviant-sibling check).'
     ' (R8) the output buffer a dispatch arm allocates (`DMatrix/DVector/RowDVector::from_element(shape.., default)`) has the shape of the (equal-shaped) matrix operand(s), decided over the finite shape table for every unary and binary arm.'
+    ' (R9) scalar semantics of the exact kind: every arithmetic / comparison operator impl of R64 applies that operator to the wrapped Rational64 of its operands and calls nothing else (no detour through f64).'
 )
 
 # oracle: operator enum variant -> operator the kernel must apply (from the property statement / spec 6.1.3)
